@@ -1,6 +1,6 @@
 (* Codec/Props.v — property C19: the theorems, nothing else.
    Each is closed by [exact <lemma>] and followed by Print Assumptions. *)
-From Verif Require Import Codec.Model Codec.ProofsBytes Codec.ProofsNum Codec.ProofsCmp Codec.ProofsCmpOrder.
+From Verif Require Import Codec.Model Codec.ProofsBytes Codec.ProofsNum Codec.ProofsCmp Codec.ProofsCmpOrder Codec.ProofsComposite.
 Open Scope N_scope.
 
 (* --- byte strings --- *)
@@ -103,3 +103,31 @@ Example C19_nonvacuous :
   decode_bytes (encode_bytes [1;2;3;4;5;6;7;8;0;255] ++ [9]) = Some ([9], [1;2;3;4;5;6;7;8;0;255]) /\
   lex_cmp (encode_bytes [1;2;3]) (encode_bytes [1;2;3;0]) = Lt.
 Proof. repeat split; try (unfold two63, two64; lia); vm_compute; reflexivity. Qed.
+
+(* composite keys: concatenated fields compare field by field; MVCC keys; memcomparable key codec *)
+Theorem C19_concat_fields_order : forall a b x y,
+  (forall r, b = a ++ r -> r = []) -> (forall r, a = b ++ r -> r = []) ->
+  lex_cmp (a ++ x) (b ++ y) = match lex_cmp a b with Eq => lex_cmp x y | c => c end.
+Proof. exact lex_cmp_app_fields. Qed.
+Print Assumptions C19_concat_fields_order.
+Theorem C19_bytes_then_field_order : forall a b x y,
+  lex_cmp (encode_bytes a ++ x) (encode_bytes b ++ y) = match lex_cmp a b with Eq => lex_cmp x y | c => c end.
+Proof. exact bytes_then_field_order. Qed.
+Print Assumptions C19_bytes_then_field_order.
+Theorem C19_mvcc_roundtrip : forall k v, v < two64 -> mvcc_decode (mvcc_encode k v) = MOk k v.
+Proof. exact mvcc_decode_encode. Qed.
+Print Assumptions C19_mvcc_roundtrip.
+Theorem C19_mvcc_meta_roundtrip : forall k, mvcc_decode (encode_bytes k) = MOk k 0.
+Proof. exact mvcc_decode_meta. Qed.
+Print Assumptions C19_mvcc_meta_roundtrip.
+Theorem C19_mvcc_order : forall k1 v1 k2 v2, v1 < two64 -> v2 < two64 ->
+  lex_cmp (mvcc_encode k1 v1) (mvcc_encode k2 v2) = match lex_cmp k1 k2 with Eq => N.compare v2 v1 | c => c end.
+Proof. exact mvcc_encode_order. Qed.
+Print Assumptions C19_mvcc_order.
+Theorem C19_mvcc_strict : forall b k v, wf_bytes b -> mvcc_decode b = MOk k v ->
+  (b = encode_bytes k /\ v = 0) \/ (b = mvcc_encode k v /\ v < two64).
+Proof. exact mvcc_decode_strict. Qed.
+Print Assumptions C19_mvcc_strict.
+Theorem C19_mem_key_roundtrip : forall k, mem_decode_key (mem_encode_key k) = Some k.
+Proof. exact mem_decode_encode_key. Qed.
+Print Assumptions C19_mem_key_roundtrip.
